@@ -132,7 +132,7 @@ def contains(I, cont, x):
         if isinstance(x, VStr):
             return z3.Or([x.e == z3.StringVal(k) for k in cont.fields] + [z3.BoolVal(False)])
         return z3.BoolVal(False)
-    if isinstance(cont, VRec) and getattr(cont.t, "dictlike", False):
+    if isinstance(cont, VRec) and getattr(cont.t, "dictshape", False):
         c = const_of(x) if isinstance(x, VStr) else _NOCONST
         if isinstance(c, str):
             if c not in cont.fields:
@@ -213,7 +213,7 @@ def subscript(I, o, k):
                 return o.fields[c]
             I.raise_exc("KeyError", c)
         raise Unsupported("symbolic key into literal dict")
-    if isinstance(o, VRec) and getattr(o.t, "dictlike", False):
+    if isinstance(o, VRec) and getattr(o.t, "dictshape", False):
         c = const_of(k) if isinstance(k, VStr) else _NOCONST
         if not isinstance(c, str):
             raise Unsupported("symbolic key into a dict-shaped record")
@@ -234,6 +234,11 @@ def subscript(I, o, k):
         ci = I.class_of(o)
         if ci is not None and ci.find_method("__getitem__"):
             return I.call_method_ast(o, "__getitem__", [k], {})
+    if isinstance(o, VRec) and getattr(o.t, "dictlike", False):
+        val, has = _rec_dict_key(o, k)
+        if has is not None:
+            I.require_defined(has, "KeyError", "missing key")
+        return val
     if isinstance(o, VNone):
         I.raise_exc("TypeError", "'NoneType' object is not subscriptable")
     if I.spec:
@@ -341,7 +346,7 @@ def set_add(I, s, kk):
 def store_subscript(I, o, k, v):
     o = I.force(o)
     k = I.force(k)
-    if isinstance(o, VRec) and getattr(o.t, "dictlike", False):
+    if isinstance(o, VRec) and getattr(o.t, "dictshape", False):
         raise Unsupported("mutation of a dict-shaped record (%s)" % o.t.nm)
     if isinstance(o, VMap):
         kk = unwrap(k, o.kt)
@@ -407,6 +412,48 @@ class VEnum(V):
         self.start = start
 
 
+class VExt(V):
+    """an object of an external (stdlib) class modelled by a table of builtin methods"""
+    t = None
+
+    def __init__(self, tag, attrs=None):
+        self.tag = tag
+        self.attrs = dict(attrs or {})
+
+
+REC_METHODS = {}   # (record-name prefix, method name) -> impl(I, rec, args, kw)
+
+
+def _rec_dict_key(o, k):
+    """dict-like record (R.record(..., dictlike=True)): an immutable dict *value* with a fixed universe of string
+    keys; field `k` holds the value of key k, the optional bool field `has_k` its presence (absent = always present).
+    Reading a key outside the declared universe is not modelled (Unsupported), so nothing is assumed about it."""
+    c = const_of(k) if isinstance(k, VStr) else _NOCONST
+    if not isinstance(c, str) or c not in o.fields or c.startswith("has_"):
+        raise Unsupported("key %r outside the declared universe of dict-like record %s" % (c, o.t.nm))
+    has = o.fields.get("has_" + c)
+    return o.fields[c], (None if has is None else z3.simplify(has.e))
+
+
+def rec_dict_get(I, o, args, kw):
+    val, has = _rec_dict_key(o, args[0])
+    default = args[1] if len(args) > 1 else VNone()
+    if has is None or z3.is_true(has):
+        return val
+    if z3.is_false(has):
+        return default
+    try:
+        if isinstance(default, VNone):
+            t = typeof(val)
+            t = t if isinstance(t, TOpt) else TOpt(t)
+            return t.wrap(z3.If(has, unwrap(val, t), t.none()))
+        return I.ite(has, val, default)
+    except (Unsupported, TypeError):
+        if I.spec:
+            raise Unsupported("dict-like record .get with a default of another type in a specification")
+    return val if I.path.branch(has) else default
+
+
 class VFile(V):
     t = None
 
@@ -421,7 +468,7 @@ SEQ_METHODS = {"append", "appendleft", "pop", "popleft", "remove", "clear", "ext
                "copy", "sort", "count", "reverse"}
 MAP_METHODS = {"get", "pop", "setdefault", "keys", "values", "items", "update", "clear", "copy",
                "move_to_end", "popitem"}
-SET_METHODS = {"add", "discard", "remove", "clear", "copy", "update"}
+SET_METHODS = {"add", "discard", "remove", "clear", "copy", "update", "isdisjoint"}
 STR_METHODS = {"lower", "upper", "strip", "split", "join", "startswith", "endswith", "format", "replace",
                "encode", "lstrip", "rstrip", "isdigit", "splitlines", "find", "count"}
 
@@ -456,7 +503,7 @@ def get_attribute(I, o, name, default=_NOCONST):
                 return I.ev(ci.attrs[name], Env(None, ci.module))
         if name == "__dict__":
             return VDictRec(o.fields)
-    elif isinstance(o, VRec) and getattr(o.t, "dictlike", False):
+    elif isinstance(o, VRec) and getattr(o.t, "dictshape", False):
         if name == "get":
             return VFunc("bmethod", name, selfv=o)
         if name in MAP_METHODS:
@@ -464,6 +511,14 @@ def get_attribute(I, o, name, default=_NOCONST):
     elif isinstance(o, VRec):
         if name in o.fields:
             return o.fields[name]
+        for (prefix, mname), impl in REC_METHODS.items():
+            if mname == name and o.t.nm.startswith(prefix):
+                return VFunc("builtin", name, impl=lambda I2, a, k, impl=impl, o=o: impl(I2, o, a, k))
+        if getattr(o.t, "dictlike", False) and name == "get":
+            return VFunc("builtin", "get", impl=lambda I2, a, k, o=o: rec_dict_get(I2, o, a, k))
+    elif isinstance(o, VExt):
+        if name in o.attrs:
+            return o.attrs[name]
     elif isinstance(o, (VSeq, VEmptyList)):
         if name in SEQ_METHODS:
             return VFunc("bmethod", name, selfv=o)
@@ -484,6 +539,9 @@ def get_attribute(I, o, name, default=_NOCONST):
         if v is not None:
             return v
     elif isinstance(o, VClass):
+        if name == "__name__":
+            dn = getattr(o, "dyn_name", None)
+            return dn if dn is not None else VStr(o.name)
         if o.node is not None:
             ci = o.module.classes.get(o.name)
             r = ci.find_method(name) if ci else None
@@ -496,10 +554,26 @@ def get_attribute(I, o, name, default=_NOCONST):
     elif isinstance(o, VExc):
         if name == "args":
             return VTuple(o.args)
+        if name in getattr(o, "attrs", {}):
+            return o.attrs[name]
+        if name == "errno" and exc_is_sub(o.cls, "OSError") and not (o.args and isinstance(o.args[0], VObj)):
+            # OSError.errno of an exception raised by a trusted I/O model / a callee contract: an arbitrary int
+            # (errno None behaves like an int outside every errno set for the membership tests it is used in)
+            if not hasattr(o, "attrs"):
+                o.attrs = {}
+            o.attrs["errno"] = VInt(I.path.fresh("errno", z3.IntSort()))
+            return o.attrs["errno"]
         if o.args and isinstance(o.args[0], VObj):
             return get_attribute(I, o.args[0], name, default)
     elif isinstance(o, VFile):
+        if name in getattr(o, "attrs", {}):
+            return o.attrs[name]
         return VFunc("bmethod", name, selfv=o)
+    elif isinstance(o, VPath):
+        from . import fsmodel
+        r = fsmodel.path_attr(I, o, name)
+        if r is not None:
+            return r
     elif isinstance(o, VFunc):
         if name == "__name__":
             return VStr(o.name)
@@ -512,9 +586,27 @@ def get_attribute(I, o, name, default=_NOCONST):
 
 # =============================================================== calls
 
+def callable_un_func(I, f):
+    """values of an uninterpreted sort declared `callable=<funtype>`: a VFunc obeying that contract"""
+    if isinstance(f, VUn) and f.t.nm in I.ver.reg.callable_uns:
+        g = VFunc("param", f.t.nm, contract=I.ver.fun_contract(I.ver.reg.callable_uns[f.t.nm]))
+        g.selfv = f
+        return g
+    return None
+
+
 def call(I, f, args, kwargs, node=None):
     if not I.spec:
         f = I.force(f)
+    elif isinstance(f, VOptObj):
+        # a possibly-absent callable used inside a specification / sort key: only when it is known to be present
+        if not I.path.known(f.present):
+            raise Unsupported("call of an optional callable not known to be present, in a specification")
+        f = f.obj
+    if isinstance(f, VUn):
+        g = callable_un_func(I, f)
+        if g is not None:
+            f = g
     if isinstance(f, VFunc):
         if f.kind == "ast" and getattr(f, "qual", None) in I.ver.reg.opaques and \
                 not (I.ver.cur is not None and I.ver.cur.key == f.qual and not I.fn_stack[1:]):
@@ -603,12 +695,22 @@ def call_contract(I, c, f, args, kwargs):
     caller = I.cur_obl_prefix()
     for nm, src in c.requires:
         I.path.prove(I.eval_spec(src, env), "%s/call:%s/pre:%s" % (caller, c.short, nm), "call-pre", where=src)
+    cur = I.cur_contract
+    if cur is not None and getattr(cur, "call_pre", None) and c.key in cur.call_pre and len(I.fn_stack) == 1:
+        # caller-side cut point: clauses over the calling function's own locals / ghost state, proved before the call
+        for nm, src in cur.call_pre[c.key]:
+            I.path.prove(I.eval_spec(src, I.top_env), "%s/before-call:%s/%s" % (caller, c.short, nm), "assert", where=src)
     snap = I.snapshot_env(env)
     saved_old = I.old_env
     try:
         for p in c.modifies:
             _havoc_path(I, p, env)
         I.old_env = snap
+        if "fs" in c.modifies:
+            # the havoc'd ghost file system stands for *every* intermediate (crash) state of the callee: it is only
+            # known to satisfy the callee's crash invariant, from which the caller's must follow
+            from . import fsmodel
+            fsmodel.at_modular_call(I, c, env, snap, saved_old)
         for cls, cond in c.raises_list():
             b = I.path.fresh("raised_%s_%s" % (c.short.replace(".", "_"), cls), z3.BoolSort())
             if cond is not None:
@@ -639,12 +741,18 @@ def call_param(I, f, args, kwargs):
     c = f.contract
     if c is None:
         raise Unsupported("call of function parameter %s without contract" % f.name)
-    env = Env(I.ghost_env, None)
+    env = Env(getattr(I, "ghost_env", None), None)
     for i, pn in enumerate(c.params):
         if i < len(args):
             env.set(pn, args[i])
         elif pn in kwargs:
             env.set(pn, kwargs[pn])
+    if f.selfv is not None:
+        env.set("self_fn", f.selfv)
+    if I.spec:
+        if c.pure_result is None:
+            raise Unsupported("call of function parameter %s in a specification (no pure_result declared)" % f.name)
+        return I.eval_spec_value(c.pure_result, env)
     caller = I.cur_obl_prefix()
     for nm, src in c.requires:
         I.path.prove(I.eval_spec(src, env), "%s/call:%s/pre:%s" % (caller, c.short, nm), "call-pre", where=src)
@@ -657,7 +765,11 @@ def call_param(I, f, args, kwargs):
         if I.path.branch(b):
             for st in c.effects_exc:
                 I.exec_ghost(st, env)
-            raise PyRaise(VExc(cls, [], any_subclass=True))
+            ex = VExc(cls, [], any_subclass=True)
+            if c.exc_info is not None:
+                ex.tname = I.eval_spec_value(c.exc_info[0], env)
+                ex.msg = I.eval_spec_value(c.exc_info[1], env)
+            raise PyRaise(ex)
     res = VNone()
     if c.returns is not None:
         res = I.fresh_value(I.ver.types.parse(c.returns), "ret_" + c.short)
@@ -846,7 +958,31 @@ def bi_str(I, args, kw):
         return VStr(z3.If(v.e, z3.StringVal("True"), z3.StringVal("False")))
     if isinstance(v, VUn) and v.t.nm in STRLIKE:
         return v
+    if isinstance(v, VPath):
+        from . import fsmodel
+        return fsmodel.path_str(I, v)
+    if isinstance(v, VOpt) and I.spec:
+        inner = bi_str(I, [v.val()], {})
+        return VStr(z3.If(v.is_none(), z3.StringVal("None"), inner.e))
+    if isinstance(v, VExc):
+        m = getattr(v, "msg", None)
+        if m is None:
+            # str(exc) of an exception we know nothing about: an arbitrary string, fixed per exception object
+            m = v.msg = VStr(I.path.fresh("exc_str", z3.StringSort()))
+        return m
     return I.ver.opaque_str("str", v, I)
+
+
+def bi_open(I, args, kw):
+    """builtin open(): trusted contract in pyvc/fsmodel.py (abstract file system)"""
+    from . import fsmodel
+    return fsmodel.fs_open(I, args, kw)
+
+
+def sp_fs_key(I, args, kw):
+    """spec function fs_key(p): key of a Path / str in the ghost file system (pyvc/fsmodel.py)"""
+    from . import fsmodel
+    return fsmodel.sp_fs_key(I, args, kw)
 
 
 def bi_abs(I, args, kw):
@@ -934,7 +1070,7 @@ def _isinst(I, v, nm):
     if isinstance(v, (VSet, VEmptySet)):
         return nm in ("set",)
     if isinstance(v, VRec):
-        if getattr(v.t, "dictlike", False):
+        if getattr(v.t, "dictlike", False) or getattr(v.t, "dictshape", False):
             return nm in ("dict", "Mapping", "MutableMapping")
         return nm == v.t.nm
     if isinstance(v, VObj):
@@ -989,6 +1125,8 @@ def bi_callable(I, args, kw):
     if isinstance(v, VObj):
         ci = I.class_of(v)
         return VBool(bool(ci and ci.find_method("__call__")))
+    if callable_un_func(I, v) is not None:
+        return VBool(True)
     return VBool(False)
 
 
@@ -1016,6 +1154,8 @@ def to_seq(I, v):
         lo, hi = to_int(v.lo), to_int(v.hi)
         i = z3.Int("rg_i")
         return VSeq(z3.Lambda([i], lo + i), z3.simplify(z3.If(hi > lo, hi - lo, 0)), TInt, "list")
+    if isinstance(v, (VNone, VInt, VReal, VBool)):
+        I.raise_exc("TypeError", "object is not iterable")
     raise Unsupported("list() of %s" % type(v).__name__)
 
 
@@ -1182,6 +1322,9 @@ def sort_seq(I, v, key):
         p.assume(z3.ForAll([i, j], z3.Implies(z3.And(0 <= i, i < j, j < n), le)))
         p.assume(z3.ForAll([i, j], z3.Implies(z3.And(0 <= i, i < j, j < n, keq), sg(i) < sg(j))))
     res.perm = (sg, sgi, v)
+    if not hasattr(p, "fn_witnesses"):
+        p.fn_witnesses = []
+    p.fn_witnesses.append(sg)
     return res
 
 
@@ -1196,8 +1339,15 @@ def bi_range(I, args, kw):
     if len(args) == 2:
         return VRange(args[0], args[1], 1)
     st = const_of(args[2])
-    if not isinstance(st, int) or st == 0:
-        raise Unsupported("range with symbolic step")
+    if isinstance(st, bool) or st == 0:
+        raise Unsupported("range step")
+    if not isinstance(st, int):
+        if not isinstance(args[2], VInt):
+            raise Unsupported("range with a non-int step")
+        I.require_defined(args[2].e != 0, "ValueError", "range() arg 3 must not be zero")
+        if not I.path.known(args[2].e > 0):
+            raise Unsupported("range with a symbolic step not known to be positive")
+        return VRange(args[0], args[1], args[2])      # symbolic positive step (see _iter_protocol)
     return VRange(args[0], args[1], st)
 
 
@@ -1260,6 +1410,13 @@ def bi_object(I, args, kw):
 
 def bi_type(I, args, kw):
     v = I.force(args[0])
+    if isinstance(v, VExc):
+        c = VClass(v.cls, exc_base=EXC_PARENT.get(v.cls) or "BaseException")
+        tn = getattr(v, "tname", None)
+        if tn is None and v.any_subclass:
+            tn = v.tname = VStr(I.path.fresh("exc_type_name", z3.StringSort()))
+        c.dyn_name = tn
+        return c
     for nm in ("bool", "int", "float", "str", "NoneType", "dict", "list", "tuple", "set"):
         if _isinst(I, v, nm) and not (nm == "int" and isinstance(v, VBool)):
             return VClass(nm)
@@ -1272,6 +1429,45 @@ def bi_type(I, args, kw):
 
 def bi_print(I, args, kw):
     return VNone()
+
+
+def bi_super(I, args, kw):
+    """zero-argument super() inside a method of a repository class: attribute lookup continues in the bases.
+    Only what the verified code needs is modelled: a method found in a repository base class, or the builtin
+    (Base)Exception.__init__ (stores `args`)."""
+    if args:
+        raise Unsupported("super(cls, obj)")
+    f = I.fn_stack[-1] if getattr(I, "fn_stack", None) else None
+    selfv = getattr(f, "selfv", None)
+    owner = I.ver.class_of_method(f.node) if f is not None else None
+    if owner is None or selfv is None:
+        raise Unsupported("super() outside a method")
+    attrs = {}
+    seen = False
+    stack = list(owner.bases)
+    names = set()
+    while stack:
+        b = stack.pop(0)
+        ci = owner.module.classes.get(b)
+        if ci is None:
+            v = I.ver.module_name(owner.module, b, I)
+            ci = v.module.classes.get(v.name) if isinstance(v, VClass) and v.node is not None else None
+        if ci is not None:
+            for mn, node in ci.methods.items():
+                if mn not in attrs:
+                    g = VFunc("ast", "%s.%s" % (ci.name, mn), node=node, module=ci.module, selfv=selfv)
+                    g.qual = "%s:%s.%s" % (ci.module.relpath, ci.name, mn)
+                    attrs[mn] = g
+            stack.extend(ci.bases)
+        elif b in EXC_PARENT:
+            seen = True
+    if seen and "__init__" not in attrs:
+        def exc_init(I2, a, k, selfv=selfv):
+            if isinstance(selfv, VObj):
+                selfv.fields["args"] = VTuple(list(a))
+            return VNone()
+        attrs["__init__"] = VFunc("builtin", "Exception.__init__", impl=exc_init)
+    return VExt("super", attrs)
 
 
 def bi_zip(I, args, kw):
@@ -1306,15 +1502,55 @@ def gh_lemma_pigeonhole(I, args, kw):
     return VNone()
 
 
+def gh_choose(I, args, kw):
+    """ghost only: choose('<type>', lambda x: P(x)) -> a value w of that type with  (exists x. P(x)) ==> P(w)
+    (Hilbert choice: a conservative definition, it constrains nothing but the fresh w)."""
+    t = I.ver.types.parse(const_of(args[0]))
+    pred = args[1]
+    w = I.fresh_value(t, "chosen")
+    x = t.wrap(z3.Const(I.path.fresh_name("ch_x"), t.sort()))
+    saved = I.spec
+    I.spec = True
+    try:
+        pw = I.truth(I.call(pred, [w], {}))
+        px = I.truth(I.call(pred, [x], {}))
+    finally:
+        I.spec = saved
+    I.path.assume(z3.ForAll([unwrap(x, t)], z3.Implies(px, pw)))
+    return w
+
+
+def gh_map_set_all(I, args, kw):
+    """ghost only: map_set_all(m, keys, v):  for k in keys: m[k] = v   (keys: a set)"""
+    m, ks, v = args
+    if not isinstance(m, VMap) or m.order is not None:
+        raise Unsupported("map_set_all on %s" % type(m).__name__)
+    dom2, card2, _ = _as_set_dom(I, ks, m.kt)
+    k = z3.Const(I.path.fresh_name("msa_k"), m.kt.sort())
+    ve = unwrap(v, m.vt)
+    nd = I.path.fresh("msa_dom", z3.ArraySort(m.kt.sort(), z3.BoolSort()))
+    nv = I.path.fresh("msa_val", z3.ArraySort(m.kt.sort(), m.vt.sort()))
+    I.path.assume(z3.ForAll([k], z3.Select(nd, k) == z3.Or(z3.Select(m.dom, k), z3.Select(dom2, k)),
+                            patterns=[z3.Select(nd, k)]))
+    I.path.assume(z3.ForAll([k], z3.Select(nv, k) == z3.If(z3.Select(dom2, k), ve, z3.Select(m.val, k)),
+                            patterns=[z3.Select(nv, k)]))
+    nc = I.path.fresh("msa_card", z3.IntSort())
+    I.path.assume(z3.And(nc >= m.card, nc >= card2, nc <= m.card + card2))
+    m.dom, m.val, m.card = nd, nv, nc
+    m.writeback()
+    return VNone()
+
+
 BUILTIN_FUNCS = {
+    "choose": gh_choose, "map_set_all": gh_map_set_all,
     "lemma_pigeonhole": gh_lemma_pigeonhole, "int_parses": sp_int_parses, "int_value": sp_int_value,
     "len": bi_len, "int": bi_int, "float": bi_float, "bool": bi_bool, "str": bi_str, "abs": bi_abs,
     "min": bi_min, "max": bi_max, "isinstance": bi_isinstance, "hasattr": bi_hasattr, "getattr": bi_getattr,
     "setattr": bi_setattr, "callable": bi_callable, "list": bi_list, "tuple": bi_tuple, "dict": bi_dict,
     "set": bi_set, "sorted": bi_sorted, "enumerate": bi_enumerate, "range": bi_range, "iter": bi_iter,
     "round": bi_round, "sum": bi_sum, "any": bi_any_all(True), "all": bi_any_all(False), "id": bi_id,
-    "hash": bi_hash, "object": bi_object, "type": bi_type, "print": bi_print, "zip": bi_zip,
-    "deque": bi_deque, "OrderedDict": None,
+    "hash": bi_hash, "object": bi_object, "type": bi_type, "print": bi_print, "zip": bi_zip, "super": bi_super,
+    "deque": bi_deque, "OrderedDict": None, "open": bi_open, "fs_key": sp_fs_key,
 }
 BUILTIN_TYPES = {"int": bi_int, "float": bi_float, "bool": bi_bool, "str": bi_str, "list": bi_list,
                  "tuple": bi_tuple, "dict": bi_dict, "set": bi_set, "object": bi_object, "deque": bi_deque}
@@ -1363,7 +1599,7 @@ def call_bmethod(I, o, name, args, kw):
         return map_method(I, o, name, args, kw)
     if isinstance(o, VDictRec):
         return dictrec_method(I, o, name, args, kw)
-    if isinstance(o, VRec) and name == "get":
+    if isinstance(o, VRec) and getattr(o.t, "dictshape", False) and name == "get":
         c = const_of(args[0]) if isinstance(args[0], VStr) else _NOCONST
         if not isinstance(c, str):
             raise Unsupported("symbolic key lookup in a dict-shaped record")
@@ -1389,6 +1625,9 @@ def call_bmethod(I, o, name, args, kw):
         return str_method(I, o, name, args, kw)
     if isinstance(o, VFile):
         return I.ver.fs_method(I, o, name, args, kw)
+    if isinstance(o, VPath):
+        from . import fsmodel
+        return fsmodel.path_method(I, o, name, args, kw)
     raise Unsupported("method %s of %s" % (name, type(o).__name__))
 
 
@@ -1627,9 +1866,42 @@ def dictrec_method(I, d, name, args, kw):
     raise Unsupported("literal dict .%s" % name)
 
 
+def _as_set_dom(I, other, kt):
+    """membership predicate (z3 array kt -> Bool) and cardinality bound of an iterable used as a set operand"""
+    other = I.force(other)
+    if isinstance(other, (VEmptySet, VEmptyList)):
+        return z3.K(kt.sort(), z3.BoolVal(False)), z3.IntVal(0), True
+    if isinstance(other, VSet) and other.kt == kt:
+        return other.dom, other.card, True
+    if isinstance(other, VSeq) and other.et == kt:
+        st = bi_set(I, [other], {})
+        return st.dom, st.card, False
+    raise Unsupported("set operation with %s operand" % type(other).__name__)
+
+
 def set_method(I, s, name, args, kw):
+    if name == "isdisjoint":
+        if isinstance(s, VEmptySet):
+            return VBool(True)
+        dom2, _, _ = _as_set_dom(I, args[0], s.kt)
+        k = z3.Const(I.path.fresh_name("dj_k"), s.kt.sort())
+        return VBool(z3.Not(z3.Exists([k], z3.And(z3.Select(s.dom, k), z3.Select(dom2, k)))))
     if isinstance(s, VEmptySet):
         raise Unsupported("mutation of set() of unknown element type; declare the local's type")
+    if name == "update":
+        # s |= other: union; the cardinality is only bounded (exact when the operands are disjoint)
+        dom2, card2, _ = _as_set_dom(I, args[0], s.kt)
+        k = z3.Const(I.path.fresh_name("un_k"), s.kt.sort())
+        old_dom, old_card = s.dom, s.card
+        nd = I.path.fresh("union_dom", z3.ArraySort(s.kt.sort(), z3.BoolSort()))
+        I.path.assume(z3.ForAll([k], z3.Select(nd, k) == z3.Or(z3.Select(old_dom, k), z3.Select(dom2, k)),
+                                patterns=[z3.Select(nd, k)]))
+        s.dom = nd
+        s.card = I.path.fresh("union_card", z3.IntSort())
+        I.path.assume(z3.And(s.card >= old_card, s.card >= card2, s.card <= old_card + card2))
+        I.path.assume((s.card == 0) == z3.And(old_card == 0, card2 == 0))
+        s.writeback()
+        return VNone()
     if name == "add":
         set_add(I, s, unwrap(I.force(args[0]), s.kt))
         return VNone()
@@ -1663,7 +1935,28 @@ def str_method(I, s, name, args, kw):
     if name in ("lower", "upper", "strip", "lstrip", "rstrip"):
         return VStr(I.ver.str_fn(name)(s.e))
     if name == "encode":
-        return s
+        # bytes are modelled as str: a UTF-8 byte string is represented by the text it encodes (identity); any other
+        # codec is an opaque deterministic function of (text, codec).  Encoding may fail (lone surrogates /
+        # unencodable characters: UnicodeEncodeError; unknown codec name: LookupError) -- exec mode forks.
+        enc = args[0] if args else kw.get("encoding")
+        cenc = "utf-8" if enc is None else (const_of(enc) if isinstance(enc, VStr) else _NOCONST)
+        known = isinstance(cenc, str) and cenc.lower().replace("_", "-") in ("utf-8", "utf8")
+        if not known and not isinstance(enc, VStr):
+            raise Unsupported("str.encode with a non-string codec")
+        utf8 = z3.BoolVal(True) if known else z3.Or(enc.e == z3.StringVal("utf-8"), enc.e == z3.StringVal("utf8"))
+        if not I.spec:
+            if I.path.choice():
+                I.raise_exc("UnicodeEncodeError", "codec can't encode character")
+            if not known:
+                if I.path.choice():
+                    I.path.assume(z3.Not(utf8))     # "utf-8" / "utf8" are known codecs
+                    I.raise_exc("LookupError", "unknown encoding")
+        if known:
+            return s
+        if isinstance(enc, VStr):
+            other = I.ver.opaque_str("encode", VTuple([s, enc]), I)
+            return VStr(z3.If(utf8, s.e, other.e))
+        raise Unsupported("str.encode with a non-string codec")
     if name == "replace":
         return VStr(z3.Replace(s.e, args[0].e, args[1].e)) if False else I.ver.opaque_str("replace", VTuple([s] + list(args)), I)
     if name == "find":
@@ -1725,7 +2018,7 @@ def comprehension(I, n, env):
         base = inner
         mk_item = lambda idx: VTuple([VInt(idx + to_int(src.start)), base.get(idx)])
     elif isinstance(src, VRange):
-        if src.step != 1:
+        if isinstance(src.step, V) or src.step != 1:
             raise Unsupported("comprehension over stepped range")
         lo, hi = to_int(src.lo), to_int(src.hi)
         cnt = z3.If(hi > lo, hi - lo, 0)
@@ -1845,7 +2138,11 @@ def dict_comprehension(I, n, env):
 
 
 def set_comprehension(I, n, env):
-    raise Unsupported("set comprehension")
+    """{elt for x in xs if c} == set([elt for x in xs if c])"""
+    lst = comprehension(I, n, env)
+    if isinstance(lst, VEmptyList):
+        return VEmptySet()
+    return bi_set(I, [lst], {})
 
 
 def assign_spec(self, t, v, env):
@@ -1865,24 +2162,45 @@ Interp.assign_spec = assign_spec
 
 def exec_with(I, s, env):
     entered = []
-    try:
-        for it in s.items:
-            cm = I.force(I.ev(it.context_expr, env))
-            I.with_stack.append(cm)
-            entered.append(cm)
-            val = cm
-            if isinstance(cm, VObj):
-                ci = I.class_of(cm)
-                if ci is not None and ci.find_method("__enter__"):
-                    val = I.call_method_ast(cm, "__enter__", [], {})
-            if it.optional_vars is not None:
-                I.assign(it.optional_vars, val, env)
-        I.exec_block(s.body, env)
-    finally:
-        for cm in reversed(entered):
-            I.with_stack.pop()
+
+    def leave(exc):
+        # __exit__ of file objects = close() (may itself raise: the new exception then replaces the one in flight);
+        # only run for python-level exits (normal / exception / return / break / continue), never for engine signals
+        err = None
+        while entered:
+            cm = entered.pop()
             if isinstance(cm, VFile):
-                I.ver.fs_method(I, cm, "close", [], {})
+                try:
+                    I.ver.fs_method(I, cm, "__exit__", [], {})
+                except PyRaise as pr:
+                    err = pr
+        if err is not None:
+            raise err
+
+    depth = len(I.with_stack)
+    try:
+        try:
+            for it in s.items:
+                cm = I.force(I.ev(it.context_expr, env))
+                I.with_stack.append(cm)
+                entered.append(cm)
+                val = cm
+                if isinstance(cm, VObj):
+                    ci = I.class_of(cm)
+                    if ci is not None and ci.find_method("__enter__"):
+                        val = I.call_method_ast(cm, "__enter__", [], {})
+                if it.optional_vars is not None:
+                    I.assign(it.optional_vars, val, env)
+            I.exec_block(s.body, env)
+        except (PyRaise, ReturnSig, BreakSig, ContinueSig) as sig:
+            del I.with_stack[depth:]
+            leave(sig)
+            raise
+        else:
+            del I.with_stack[depth:]
+            leave(None)
+    finally:
+        del I.with_stack[depth:]
 
 
 def _iter_protocol(I, it):
@@ -1906,6 +2224,34 @@ def _iter_protocol(I, it):
         if kind[0] == "seq":
             return ("seq", kind[1], lambda i: VTuple([VInt(st + i), kind[2](i)]))
         raise Unsupported("enumerate over map")
+    if isinstance(it, VRange) and isinstance(it.step, V):
+        # range(lo, hi, s) with a symbolic step s > 0: element i is lo + i*s.  To stay linear, i*s is the
+        # uninterpreted range_mul(i, s) constrained by true facts of multiplication by a positive number only:
+        # range_mul(0,s) = 0, monotone in i, the successor equation at the indices the loop touches, and the
+        # defining inequalities of the length n:  lo + (n-1)*s < hi <= lo + n*s  (n = 0 iff hi <= lo).
+        p = I.path
+        lo, hi = to_int(it.lo), to_int(it.hi)
+        s = p.fresh("range_step", z3.IntSort())     # a constant, so that range_mul(i, s) can be used in triggers
+        p.assume(s == to_int(it.step))
+        mul = z3.Function("range_mul", z3.IntSort(), z3.IntSort(), z3.IntSort())
+        n = p.fresh("range_n", z3.IntSort())
+        a, b = z3.Ints("rm_a rm_b")
+        p.assume(z3.And(mul(0, s) == 0, mul(1, s) == s))
+        p.assume(z3.ForAll([a, b], z3.Implies(z3.And(0 <= a, a <= b), mul(a, s) <= mul(b, s)),
+                           patterns=[z3.MultiPattern(mul(a, s), mul(b, s))]))
+        p.assume(n >= 0)
+        p.assume((n == 0) == (hi <= lo))
+        p.assume(z3.Implies(n > 0, z3.And(mul(n, s) == mul(n - 1, s) + s, lo + mul(n - 1, s) < hi, hi <= lo + mul(n, s))))
+        I.ver.note_assumption("range(lo, hi, s) with symbolic s>0: i*s is the uninterpreted range_mul(i,s) with "
+                              "range_mul(0,s)=0, monotonicity, successor equations at touched indices, and the "
+                              "defining inequalities of the range length")
+
+        def item(i):
+            p.assume(z3.Implies(i >= 0, mul(i + 1, s) == mul(i, s) + s))
+            return VInt(lo + mul(i, s))
+        j = z3.Int("rg_j")
+        item.seqv = VSeq(z3.Lambda([j], lo + mul(j, s)), n, TInt, "list")
+        return ("seq", n, item)
     if isinstance(it, VRange):
         lo, hi = to_int(it.lo), to_int(it.hi)
         clo, chi = const_of(VInt(lo)), const_of(VInt(hi))
@@ -1962,7 +2308,7 @@ def exec_for(I, s, env):
         n, item = proto[1], proto[2]
         if spec is None:
             return _unroll_for(I, s, env, n, item)
-        seqv = VSeq(it.arr, it.n, it.et, "list") if isinstance(it, VSeq) else None
+        seqv = VSeq(it.arr, it.n, it.et, "list") if isinstance(it, VSeq) else getattr(item, "seqv", None)
         return _for_seq_inv(I, s, env, spec, n, item, seqv)
     # iteration over an unordered finite set / map domain
     m = proto[1]
